@@ -363,6 +363,14 @@ Ltac mod_norm :=
     repeat (f_equal; try ring)
   end.
 
+(** split an equation between explicit lists (or pairs) into one goal per component *)
+Ltac list_split :=
+  repeat (match goal with
+          | |- @eq (list _) (_ :: _) (_ :: _) => apply (f_equal2 (@cons _))
+          | |- @eq (_ * _)%type (_, _) (_, _) => apply f_equal2
+          | |- @eq (option _) (Some _) (Some _) => apply f_equal
+          end); try reflexivity.
+
 (** ** The executable instance: Z mod r, "in the exponent" (DESIGN 4.6). *)
 Definition bls_r : Z := 0x73eda753299d7d483339d80809a1d80553bda402fffe5bfeffffffff00000001.
 
